@@ -5,7 +5,7 @@ committed regression corpus corpus/<prop>.jsonl: at most PER_KEY explicit specs 
 (rare condition reached), existing entries kept first. Never run by a check."""
 import json, sys, os, glob, collections
 ROOT = os.path.dirname(os.path.dirname(os.path.abspath(__file__)))
-PER_KEY = {"C13": 2, "C15": 2, "C16": 1}
+PER_KEY = {"C13": 1, "C15": 2, "C16": 1}
 props = sys.argv[1:] or ["C13", "C15"]
 for prop in props:
     path = os.path.join(ROOT, "corpus", f"{prop}.jsonl")
